@@ -8,10 +8,11 @@ round (its own inserts/deletes and the replay of merged child tries); `t` = the 
 What is proved for every event list: the collector algebra (`collector_algebra`), `store_mono`, completeness of the
 save under the event discipline (`C04_complete_partial`), crash safety of every prefix of the save's write stream
 (`C04_crash`, `C04_old_roots`).  The event discipline (`Disc`: a replaced node is live; and `hcov`: the nodes of the
-final tree are in the live set computed from the events) is NOT proved for the events emitted by
-`insertE`/`deleteE`/merge; it is checked by the harness on the recorded Go event log of every generated history
-(`checkDiscipline` in go/harness/mptstore.go).  `C04_complete` is the closed form for a round of inserts/deletes on one trie:
-there the discipline is proved (Lemmas/EventDisc, EventKeys, MptRound) and only key injectivity (`KeyInjOn`) is assumed.
+final tree are in the live set computed from the events) is PROVED for every run of a trie - own inserts/deletes and the
+replay of merged, possibly nested, child tries (`trieRun_discipline`), hence for every history of the interpreter
+(`C04_complete_run`, `C04_complete_interp`); it is additionally checked by the harness on the recorded Go event log
+(`checkDiscipline`).  Chain over all rounds: `C04_all_roots`; reading a saved root back: `C04_reopen_reads`; either order of
+the two writes: `C04_crash_any_order`.  Assumed throughout: key injectivity on the references of the history (`KeyInjOn`).
 -/
 import Verif.Lemmas.MptStoreTrie
 import Verif.Lemmas.MptRound
